@@ -169,6 +169,8 @@ def run_scenario(task):
     try:
         leaves = explore(fn, on_leaf=on_leaf, max_leaves=task.get("max_leaves", 60000))
     except Unmodelled as e:
+        if task.get("probe"):
+            return {"problems": [], "leaves": 0, "events": 0, "unmodelled": str(e)}
         # no finite decision tree: decide the law of the whole run with the real random source
         class _L(object):
             pass
